@@ -83,6 +83,7 @@ struct Th {
   op_steps: u64,
   prio: i64,
   last_ran_step: u64,
+  os_tid: u64,
 }
 
 #[derive(Clone, Debug, Default)]
@@ -114,10 +115,15 @@ pub struct St {
   pub diverged: bool,
   pct_change: Vec<u64>,
   trace: Vec<u8>,
+  /// who was at a yield point when each decision was taken: (thread, its operation index)
+  trace_owner: Vec<(u8, u32)>,
   log_hash: u64,
   keep_log: bool,
   log: Vec<(u8, u8, u8, u32)>,
   abort: Option<String>,
+  /// set when a simulated thread turned out to be blocked on a primitive outside the seam:
+  /// all threads are released and the run completes under the OS scheduler
+  free_run: bool,
   budget: u64,
   finished: usize,
   stats: RunStats,
@@ -126,6 +132,7 @@ pub struct St {
 
 pub struct RunResult {
   pub trace: Vec<u8>,
+  pub trace_owner: Vec<(u8, u32)>,
   pub log_hash: u64,
   pub log: Vec<(u8, u8, u8, u32)>,
   pub abort: Option<String>,
@@ -136,6 +143,8 @@ pub struct RunResult {
   pub sched_states: Vec<u64>,
   /// real addresses of the locks, by run-local lock id
   pub lock_addrs: Vec<usize>,
+  /// the run left simulator control (see St::free_run); it is not replayable
+  pub free_run: bool,
 }
 
 pub struct Sim {
@@ -144,6 +153,10 @@ pub struct Sim {
 }
 
 static SIM: OnceLock<Sim> = OnceLock::new();
+
+/// how often a run had to be released from simulator control in this process; when this keeps
+/// happening (a lock outside the seam is held across yield points) multi-thread runs start free
+static FREE_RUN_EVENTS: std::sync::atomic::AtomicU64 = std::sync::atomic::AtomicU64::new(0);
 
 pub fn sim() -> &'static Sim {
   SIM.get_or_init(|| Sim { st: Mutex::new(None), cv: Condvar::new() })
@@ -267,7 +280,7 @@ impl St {
   }
 
   /// Pick the next thread to run among the runnable ones.
-  fn choose(&mut self, at_op_start: bool) -> Option<usize> {
+  fn choose(&mut self, me: usize, at_op_start: bool) -> Option<usize> {
     let cands = self.runnable();
     if cands.is_empty() {
       return None;
@@ -339,6 +352,8 @@ impl St {
       }
     };
     self.trace.push(choice as u8);
+    let owner_op = if me < self.threads.len() { self.threads[me].op } else { 0 };
+    self.trace_owner.push((if me < self.threads.len() { me as u8 } else { 255 }, owner_op));
     Some(choice)
   }
 
@@ -392,6 +407,9 @@ impl Sim {
     st.record(me, ev, lock);
     st.step += 1;
     st.stats.steps += 1;
+    if st.free_run {
+      return true;
+    }
     st.sample_state();
     st.threads[me].op_steps += 1;
     if st.threads[me].op_steps > st.stats.max_op_steps {
@@ -403,7 +421,7 @@ impl Sim {
       return false;
     }
     st.threads[me].last_ran_step = st.step;
-    match st.choose(ev == Ev::OpStart) {
+    match st.choose(me, ev == Ev::OpStart) {
       Some(next) if next != me => {
         self.hand_over(g, me, next);
         let g = self.lock();
@@ -458,6 +476,10 @@ impl Sim {
         self.abort_exit(true);
         return;
       }
+      if st.free_run {
+        st.threads[me].status = Status::Runnable;
+        return;
+      }
       match st.holder[l] {
         None => return,
         Some(h) if h == me => {
@@ -472,7 +494,7 @@ impl Sim {
           st.record(me, Ev::Blocked, l);
           st.stats.blocked_events += 1;
           st.sample_state();
-          match st.choose(false) {
+          match st.choose(me, false) {
             Some(next) => {
               self.hand_over(g, me, next);
             }
@@ -536,7 +558,7 @@ impl Sim {
           st.stats.unwind_while_waiter += 1;
         }
       }
-      if st.abort.is_some() {
+      if st.abort.is_some() || st.free_run {
         return;
       }
     }
@@ -560,10 +582,10 @@ impl Sim {
       self.cv.notify_all();
       return;
     }
-    if st.abort.is_some() {
+    if st.abort.is_some() || st.free_run {
       return;
     }
-    match st.choose(false) {
+    match st.choose(me, false) {
       Some(next) => {
         st.current = next;
         st.stats.switches += 1;
@@ -589,7 +611,7 @@ impl Sim {
     let mut prios: Vec<i64> = (0..nthreads as i64).map(|x| x + 1).collect();
     rng.shuffle(&mut prios);
     for i in 0..nthreads {
-      threads.push(Th { status: Status::Runnable, thread: None, go: Arc::new(AtomicBool::new(false)), op: 0, op_steps: 0, prio: prios[i], last_ran_step: 0 });
+      threads.push(Th { status: Status::Runnable, thread: None, go: Arc::new(AtomicBool::new(false)), op: 0, op_steps: 0, prio: prios[i], last_ran_step: 0, os_tid: 0 });
     }
     let mut pct_change: Vec<u64> = Vec::new();
     if let Policy::Pct(d) = &policy {
@@ -609,10 +631,12 @@ impl Sim {
       diverged: false,
       pct_change,
       trace: Vec::new(),
+      trace_owner: Vec::new(),
       log_hash: FNV0,
       keep_log,
       log: Vec::new(),
       abort: None,
+      free_run: nthreads > 1 && FREE_RUN_EVENTS.load(Ordering::SeqCst) >= 12,
       budget,
       finished: 0,
       stats: RunStats::default(),
@@ -631,6 +655,13 @@ impl Sim {
         .spawn(move || {
           TID.with(|t| t.set(i));
           GO.with(|g| *g.borrow_mut() = Some(go));
+          let os_tid: u64 = std::fs::read_link("/proc/thread-self").ok().and_then(|p| p.file_name().and_then(|n| n.to_str().and_then(|s| s.parse::<u64>().ok()))).unwrap_or(0);
+          {
+            let mut g = sim().lock();
+            if let Some(st) = g.as_mut() {
+              st.threads[i].os_tid = os_tid;
+            }
+          }
           wait_go();
           let aborted = {
             let g = sim().lock();
@@ -661,39 +692,63 @@ impl Sim {
       for (i, h) in handles.iter().enumerate() {
         st.threads[i].thread = Some(h.thread().clone());
       }
-      let first = st.choose(true).unwrap();
+      let first = st.choose(usize::MAX, true).unwrap();
       st.current = first;
       st.note_run(first);
-      st.wake(first);
+      if st.free_run {
+        st.wake_all();
+      } else {
+        st.wake(first);
+      }
     }
     // wait for completion
     let mut watchdog_fired = false;
     {
+      // progress watchdog: fires when no yield point has been reached for `watchdog`
       let mut g = self.lock();
-      let deadline = std::time::Instant::now() + watchdog;
+      let mut last_step = u64::MAX;
+      let mut last_change = std::time::Instant::now();
       loop {
-        let done = g.as_ref().map(|s| s.finished == s.threads.len()).unwrap_or(true);
+        let (done, step) = g.as_ref().map(|s| (s.finished == s.threads.len(), s.step)).unwrap_or((true, 0));
         if done {
           break;
         }
         let now = std::time::Instant::now();
-        if now >= deadline {
+        if step != last_step {
+          last_step = step;
+          last_change = now;
+        } else if now.duration_since(last_change) >= watchdog {
           watchdog_fired = true;
           break;
+        } else if now.duration_since(last_change) >= Duration::from_millis(250) {
+          // no progress: is the baton holder asleep inside a primitive the seam does not see?
+          if let Some(st) = g.as_mut() {
+            if !st.free_run && st.current < st.threads.len() {
+              let tid = st.threads[st.current].os_tid;
+              let state = std::fs::read_to_string(format!("/proc/self/task/{}/stat", tid)).ok().and_then(|t| t.rsplit(')').next().map(|r| r.trim().chars().next().unwrap_or('?'))).unwrap_or('?');
+              if state == 'S' || state == 'D' {
+                st.free_run = true;
+                st.wake_all();
+                FREE_RUN_EVENTS.fetch_add(1, Ordering::SeqCst);
+              }
+            }
+          }
         }
-        let (ng, _) = self.cv.wait_timeout(g, (deadline - now).min(Duration::from_millis(200))).unwrap_or_else(|e| e.into_inner());
+        let (ng, _) = self.cv.wait_timeout(g, Duration::from_millis(100)).unwrap_or_else(|e| e.into_inner());
         g = ng;
       }
     }
     if watchdog_fired {
       let g = self.lock();
       let st = g.as_ref().unwrap();
-      return RunResult { trace: st.trace.clone(), log_hash: st.log_hash, log: st.log.clone(), abort: Some("watchdog".to_string()), diverged: st.diverged, stats: st.stats.clone(), watchdog: true, sched_states: Vec::new(), lock_addrs: st.lock_addr.clone() };
+      let cur = st.current;
+      let op = if cur < st.threads.len() { st.threads[cur].op } else { 0 };
+      return RunResult { trace: st.trace.clone(), trace_owner: st.trace_owner.clone(), log_hash: st.log_hash, log: st.log.clone(), abort: Some(format!("watchdog: thread {} operation {} reached no yield point for {:?} (not blocked on a lock)", cur, op, watchdog)), diverged: st.diverged, stats: st.stats.clone(), watchdog: true, sched_states: Vec::new(), lock_addrs: st.lock_addr.clone(), free_run: st.free_run };
     }
     for h in handles {
       let _ = h.join();
     }
     let st = self.lock().take().unwrap();
-    RunResult { trace: st.trace, log_hash: st.log_hash, log: st.log, abort: st.abort, diverged: st.diverged, stats: st.stats, watchdog: false, sched_states: st.state_samples, lock_addrs: st.lock_addr }
+    RunResult { trace: st.trace, trace_owner: st.trace_owner, log_hash: st.log_hash, log: st.log, abort: st.abort, diverged: st.diverged, stats: st.stats, watchdog: false, sched_states: st.state_samples, lock_addrs: st.lock_addr, free_run: st.free_run }
   }
 }
